@@ -16,6 +16,9 @@ from mc.lib import records
 
 ID = 'C11'
 LEVEL = 'exploration'
+# fewer non-trivial cases than this share of all cases means that the
+# exploration has become vacuous (reported as INTERNAL-ERROR, never as a pass)
+MIN_NONTRIVIAL_FRACTION = 0.3
 RULE = (
     'Timestamp lattice: every zone of the installed pytz x local datetimes '
     'at each UTC transition of the zone (both offsets) -1 d, -1 h, -1 s, 0, '
